@@ -17,6 +17,7 @@ import (
 
 	"github.com/emitter-io/emitter/internal/message"
 	"github.com/emitter-io/emitter/internal/security"
+	"github.com/emitter-io/emitter/internal/service/history"
 	"github.com/emitter-io/emitter/internal/verif/vkit"
 	"pgregory.net/rapid"
 )
@@ -47,7 +48,7 @@ func genHCase(disk bool) func(t *rapid.T) HCase {
 		for i, n := 0, rapid.IntRange(0, 30).Draw(t, "nmsgs"); i < n; i++ {
 			m := Msg{T: rapid.IntRange(0, 5).Draw(t, "t"),
 				TTL:  rapid.SampledFrom([]uint32{1, 500, 3600, 3600, 100000, 100000, 4294967295}).Draw(t, "ttl"),
-				Size: rapid.SampledFrom([]int{0, 1, 10, 10, 100, 100, 2000, 9000}).Draw(t, "size")}
+				Size: rapid.SampledFrom([]int{0, 1, 10, 10, 100, 100, 2000, 9000, 20000}).Draw(t, "size")}
 			for j, d := 0, rapid.IntRange(1, 4).Draw(t, "depth"); j < d; j++ {
 				m.Levels = append(m.Levels, rapid.SampledFrom([]string{"a", "a", "b", "b", "c"}).Draw(t, "lv"))
 			}
@@ -111,6 +112,11 @@ func theHBroker(disk bool) *hbroker {
 	hbrokers[disk] = h
 	return h
 }
+
+const (
+	noReply        = -1
+	droppedFinding = "C06-history-reply-dropped"
+)
 
 type hresp struct {
 	Req      int `json:"req"`
@@ -243,6 +249,9 @@ func runHistory(c HCase) vkit.Result {
 			if err != nil {
 				return nil, 0, fmt.Sprintf("%s: %v", desc, err)
 			}
+			if len(pubs) == 0 {
+				return nil, noReply, fmt.Sprintf("%s: no reply to the history request", desc)
+			}
 			if len(pubs) != 1 {
 				return nil, 0, fmt.Sprintf("%s: %d replies to one history request", desc, len(pubs))
 			}
@@ -310,17 +319,28 @@ func runHistory(c HCase) vkit.Result {
 			}
 			return ""
 		}
-		// JSON replies above the MQTT packet size cannot be sent at all; the generator keeps every expected page
-		// below it (payloads <= 9000 B, checked here) so that the reply cap of the statement is the store's.
-		jsonSize := func(exp []rec) (n int) {
+		// the reply is one MQTT PUBLISH on emitter/history/ carrying the JSON document: its exact size decides whether it can be sent
+		replyLen := func(exp []rec) int {
+			resp := history.Response{Request: reqID + 1}
 			for _, r := range exp {
-				n += len(r.payload)*4/3 + len(r.channel) + 80
+				resp.Messages = append(resp.Messages, history.Message{ID: r.id, Channel: r.channel, Payload: r.payload})
 			}
-			return
+			b, _ := json.Marshal(&resp)
+			return 2 + len("emitter/history/") + len(b)
 		}
 		exp := page(cand)
-		if jsonSize(exp) > 60000 {
-			labels["excluded:reply-larger-than-one-packet"] = true
+		if replyLen(exp) > 65536 && q.Junk == "" && q.Key != "r" && q.Key != "x" {
+			// the messages fit the store's reply cap, but their JSON form does not fit one packet
+			_, status, msg := ask(nil)
+			if status == noReply {
+				r := vkit.Failf("%s: the %d matching messages (%d bytes as a reply) are within the 64 KiB reply cap of the store, but the client gets NO reply at all to its history request", desc, len(exp), replyLen(exp))
+				r.Finding = droppedFinding
+				return r
+			}
+			if msg != "" {
+				return fail("%s", msg)
+			}
+			labels["oversize-reply-answered"] = true
 			continue
 		}
 		got, status, msg := ask(nil)
@@ -357,7 +377,7 @@ func runHistory(c HCase) vkit.Result {
 		for pg := 0; pg < q.Pages && len(exp) > 0; pg++ {
 			last := exp[len(exp)-1]
 			exp = page(cand[pos:])
-			if jsonSize(exp) > 60000 {
+			if replyLen(exp) > 65536 {
 				break
 			}
 			got, status, msg = ask(last.id)
@@ -388,6 +408,21 @@ func runHistory(c HCase) vkit.Result {
 		r.Labels = append(r.Labels, "history-request-inmemory")
 	}
 	return r
+}
+
+// TestProbeReplyDropped replays the minimal reproduction of the listed finding: 8 stored messages of 8 000 bytes
+// (64 KB: inside the store's cap) asked for with last=8.
+func TestProbeReplyDropped(t *testing.T) {
+	c := HCase{Qs: []HQ{{Filter: []string{"a"}, Key: "l", Last: "8", From: -1, Until: -1}}}
+	for i := 0; i < 8; i++ {
+		c.Msgs = append(c.Msgs, Msg{Levels: []string{"a"}, T: i % 6, TTL: 3600, Size: 8000})
+	}
+	r := runHistory(c)
+	vkit.Probe(droppedFinding, r.Fail != "" && r.Finding == droppedFinding, r.Fail)
+	if r.Fail != "" && r.Finding != droppedFinding {
+		vkit.ReportFailure(t.Name(), c, r.Fail, "")
+		t.Fatal(r.Fail)
+	}
 }
 
 func TestHistoryRequestInMemory(t *testing.T) { vkit.Check(t, genHCase(false), runHistory) }
